@@ -583,7 +583,7 @@ func init() {
 				full := cachedEnum(2, kAB, 2)
 				return []*core.Space{
 					c01NilKeepsContainer(),
-				c01Pairs("pairs-T(2,{a,b},2)", full, []mergeRep{repMap}, true),
+					c01Pairs("pairs-T(2,{a,b},2)", full, []mergeRep{repMap}, true),
 					c01Pairs("pairs-reps", small, []mergeRep{repStruct, repConfig}, false),
 					c01Pairs("pairs-spines-depth4", spines(3), []mergeRep{repMap}, false),
 					c01Pairs("pairs-mixed", mixedTrees(true), []mergeRep{repMap}, true),
